@@ -482,8 +482,8 @@ def oracle_eval(ctx, name, a, b, cpath):
                         continue
                     if o is None:
                         continue
-                    if res[0] == "unjudged" or ev.flags & {"nonfinite", "branch-cut", "near-integer", "zero-base", "near-singular"}:
-                        key = "unjudged:" + ("+".join(sorted(ev.flags & {"nonfinite", "branch-cut", "near-integer", "zero-base", "near-singular"})) or "not-interpreted")
+                    if res[0] == "unjudged" or ev.flags & {"nonfinite", "branch-cut", "near-integer", "zero-base", "near-singular", "extreme-magnitude"}:
+                        key = "unjudged:" + ("+".join(sorted(ev.flags & {"nonfinite", "branch-cut", "near-integer", "zero-base", "near-singular", "extreme-magnitude"})) or "not-interpreted")
                         unj[key] = unj.get(key, 0) + 1
                         continue
                     judged += 1
@@ -578,9 +578,183 @@ def _count_only(label):
     return f
 
 
-oracle_clear = _count_only("clear")
+def oracle_clear(ctx, name, a, b, cpath):
+    """C09: after `clear` no user-defined name is left (the built-ins are compared with a fresh table by the
+    harness monitor `builtins_changed` after every statement)"""
+    rep = ctx["rep"]
+    n = bad = 0
+    for cid, lines in a.items():
+        clear_at = set()
+        for l in lines:
+            p = l.split(" ")
+            if len(p) >= 3 and p[1].startswith("S") and p[2] == "K":
+                clear_at.add((p[0], p[1][1:]))
+            elif len(p) >= 3 and p[1].startswith("E") and (p[0], p[1][1:]) in clear_at:
+                n += 1
+                if p[2] != "-":
+                    bad += 1
+                    if bad <= 3:
+                        rep.violation("clear leaves user-defined names behind", case=engine.find_case(cpath, cid), impl=[l], stream=name,
+                                      oracle="after `clear` the environment must be exactly the initial one")
+    rep.count("oracle:clear judged", n)
+
+
+LINE_COL = re.compile(r"^Line (\d+), Column (\d+) :: \S")
+
+
+def oracle_diagnostics(ctx, name, a, b, cpath):
+    """C14: every failing statement yields exactly one rendered line, `Line l, Column c :: …`, carrying the
+    position of the diagnostic value itself"""
+    rep = ctx["rep"]
+    n = bad = 0
+    for cid, lines in a.items():
+        for l in lines:
+            p = l.split(" ")
+            txt, pos = None, None
+            if len(p) > 2 and p[1].startswith("O") and p[2] == "err":
+                txt, pos = unhx(p[-1][5:]), (p[4], p[5])
+            elif len(p) > 2 and p[1] == "scanerr":
+                txt, pos = unhx(p[-1]) + "\n", (p[2], p[3])
+            elif len(p) > 2 and p[1] == "parseerr" and p[3] != "-":
+                txt, pos = unhx(p[-1]) + "\n", (p[3], p[4])
+            if txt is None:
+                continue
+            n += 1
+            m = LINE_COL.match(txt)
+            why = None
+            if txt.count("\n") != 1 or not txt.endswith("\n"):
+                why = "not exactly one line: %r" % txt
+            elif not m:
+                why = "does not start with `Line l, Column c :: `: %r" % txt
+            elif (m.group(1), m.group(2)) != pos:
+                why = "rendered position %s:%s differs from the diagnostic's %s:%s" % (m.group(1), m.group(2), pos[0], pos[1])
+            if why:
+                bad += 1
+                if bad <= 3:
+                    rep.violation("diagnostic line malformed", case=engine.find_case(cpath, cid), impl=[l[:300]], stream=name, oracle=why)
+    rep.count("oracle:diagnostic lines judged", n)
+
+
+def read_number(t):
+    """independent reader of complex_to_string's forms -> (re, im) or None; None parts mean 'a zero'"""
+    def f(x):
+        if x in ("inf", "-inf", "NaN"):
+            return float(x.lower())
+        if not re.match(r"^-?\d+(\.\d+)?$", x):
+            raise ValueError(x)
+        return float(x)
+    if t == "0":
+        return (None, None)
+    if t == "i":
+        return (None, 1.0)
+    if t == "-i":
+        return (None, -1.0)
+    if " " in t:
+        m = re.match(r"^(\S+) ([+-]) (\S*)i$", t)
+        if not m:
+            raise ValueError(t)
+        im = 1.0 if m.group(3) == "" else f(m.group(3))
+        return (f(m.group(1)), im if m.group(2) == "+" else -im)
+    if t.endswith("i") and t not in ("inf", "-inf"):
+        return (None, f(t[:-1]))
+    return (f(t), None)
+
+
+def same_float(x, bits):
+    v = fl(bits)
+    if x is None:
+        return v == 0.0
+    if x != x:
+        return v != v
+    return struct.pack("<d", x) == struct.pack("<d", v)
+
+
+def oracle_reader(ctx, name, a, b, cpath):
+    """C15: the printed text is read back by an independent reader and compared with the value (bitwise up to
+    the sign of zero)"""
+    rep = ctx["rep"]
+    syms = sorted((u["symbol"] for u in ctx["dump"]["units"]), key=len, reverse=True)
+    n = bad = 0
+    with open(cpath) as fcases:
+        for line in fcases:
+            p = line.rstrip("\n").split(" ")
+            if p[0] != "print":
+                continue
+            lines = a.get(p[1])
+            if not lines or not lines[0].startswith("PRINT "):
+                continue
+            text = unhx(lines[0].split(" ")[1])
+            d = p[2].split(":")
+            why = None
+            try:
+                if d[0] == "n":
+                    re_, im_ = d[1].split("_")
+                    r = read_number(text)
+                    if not (same_float(r[0], re_[1:]) and same_float(r[1], im_[1:])):
+                        why = "reads back as %r" % (r,)
+                elif d[0] == "q":
+                    sym = ctx["dump"]["units"][int(d[1])]["symbol"]
+                    if not text.endswith(sym):
+                        why = "does not end with the unit symbol %r" % sym
+                    else:
+                        body = text[: -len(sym)]
+                        re_, im_ = d[2].split("_")
+                        both = fl(re_[1:]) != 0.0 and fl(im_[1:]) != 0.0
+                        if both != (body.startswith("(") and body.endswith(")")):
+                            why = "parenthesised iff both parts are non-zero is violated"
+                        else:
+                            r = read_number(body[1:-1] if both else body)
+                            if not (same_float(r[0], re_[1:]) and same_float(r[1], im_[1:])):
+                                why = "number part reads back as %r" % (r,)
+                elif d[0] == "m":
+                    rws, cls = int(d[1]), int(d[2])
+                    cells = d[3].split(",")
+                    if not (text.startswith("[") and text.endswith("]")):
+                        why = "no enclosing brackets"
+                    else:
+                        rows = text[1:-1].split("\n")
+                        if len(rows) != rws:
+                            why = "%d lines for %d rows" % (len(rows), rws)
+                        else:
+                            k = 0
+                            for i, row in enumerate(rows):
+                                if i > 0:
+                                    if not row.startswith(" "):
+                                        why = "row %d lacks its leading blank" % (i + 1)
+                                        break
+                                    row = row[1:]
+                                ents = row.split(", ")
+                                if len(ents) != cls:
+                                    why = "row %d has %d entries, expected %d" % (i + 1, len(ents), cls)
+                                    break
+                                for e in ents:
+                                    re_, im_ = cells[k].split("_")
+                                    k += 1
+                                    r = read_number(e.strip(" "))
+                                    if not (same_float(r[0], re_[1:]) and same_float(r[1], im_[1:])):
+                                        why = "entry reads back as %r" % (r,)
+                                        break
+                                if why:
+                                    break
+                elif d[0] == "fn":
+                    ent = [b for b in ctx["dump"]["builtins"] if b["key"] == unhx(d[1])][0]
+                    if "native" in ent:
+                        if text != ent["native"] + " (built-in)":
+                            why = "a built-in function must print its name marked as built-in"
+                    else:
+                        r = read_number(text)
+                        if not (same_float(r[0], ent["re"]) and same_float(r[1], ent["im"])):
+                            why = "constant reads back as %r" % (r,)
+            except ValueError as e:
+                why = "unreadable: %s" % e
+            n += 1
+            if why:
+                bad += 1
+                if bad <= 4:
+                    rep.violation("printed text %r does not denote the value %s" % (text, p[2][:80]), case=line.strip(), impl=lines, stream=name, oracle=why)
+    rep.count("oracle:reader judged", n)
+
+
 oracle_frame = _count_only("frame")
 oracle_dispatch = _count_only("dispatch")
-oracle_diagnostics = _count_only("diagnostics")
-oracle_reader = _count_only("reader")
 oracle_malformed_text_runs_nothing = _count_only("malformed")
